@@ -8,13 +8,19 @@
     as are the signed reading, the exact accepted language and totality (for C17).
   * binary-field elements / univariate / bivariate polynomials: the parsers `Bin.parse`,
     `UPoly.parse`, `BPoly.parse` run the regular-expression engine `Algobra.Regex` (`partial def`s,
-    opaque to the kernel) — nothing can be proved about their results.  For these the printers are
-    analysed (`bin_degs_injective`, …) and the full property is stated as `C15_full`; it is
-    validated by the round-trip correspondence run (tools/props.py `extra_C15`), not proved.
+    opaque to the kernel) — nothing can be proved about the values they return.  Proved for these:
+    the error kinds they can return whatever the engine does (`*_parse_error_kinds`, for C17);
+    injectivity of the printers `Bin.toStr` (every name `SetVarName` accepts), `UPoly.toStr` over
+    prime fields and the extension-field element printer (`bin_toStr_injective`,
+    `upoly_toStr_injective_prime`, `extOps_toStr_injective`); the total number readers
+    (`parseUint_roundtrip`, …).  The full property is stated as `C15_full`; it is validated by the
+    round-trip correspondence run (tools/props.py `extra_C15`), not proved; `C15_partial` is the
+    proved part.
 -/
 import Algobra.Proofs.Strings
 import Algobra.Model.Ext
 import Algobra.Model.BPoly
+import Algobra.Model.Conway
 
 namespace Algobra.C15
 open Algobra Algobra.Strings
@@ -171,6 +177,407 @@ theorem prime_parse_error {p : Nat} {s : String} {k : Kind} (h : Prime.parse p s
     · cases h
   · rw [he] at h; injection h with h; exact h.symm
 
+/-- a string containing any character other than `-` and the ASCII digits is rejected -/
+theorem prime_parse_reject_char {p : Nat} {s : String} {c : Char} (hc : c ∈ s.toList)
+    (h1 : c ≠ '-') (h2 : c.isDigit = false) : Prime.parse p s = .error .parsing := by
+  cases h : Prime.parse p s with
+  | error k => rw [prime_parse_error h]
+  | ok v =>
+    exfalso
+    obtain ⟨ds, _, hdig, ⟨hs, _⟩ | ⟨hs, _⟩⟩ := (prime_parse_ok_iff p s v).1 h
+    · rw [hs] at hc
+      have := hdig c hc
+      rw [h2] at this; cases this
+    · rw [hs] at hc
+      rcases List.mem_cons.1 hc with e | hc
+      · exact h1 e
+      · have := hdig c hc
+        rw [h2] at this; cases this
+
+/-- a minus sign anywhere but in front is rejected -/
+theorem prime_parse_reject_inner_minus {p : Nat} {s : String} (hc : '-' ∈ s.toList.drop 1) :
+    Prime.parse p s = .error .parsing := by
+  cases h : Prime.parse p s with
+  | error k => rw [prime_parse_error h]
+  | ok v =>
+    exfalso
+    obtain ⟨ds, _, hdig, ⟨hs, _⟩ | ⟨hs, _⟩⟩ := (prime_parse_ok_iff p s v).1 h
+    · rw [hs] at hc
+      have := hdig '-' (List.mem_of_mem_drop hc)
+      exact absurd this (by decide)
+    · rw [hs] at hc
+      have := hdig '-' (by simpa using hc)
+      exact absurd this (by decide)
+
+example : Prime.parse 7 "1-2" = .error .parsing := prime_parse_reject_inner_minus (by decide)
+example : Prime.parse 7 "--2" = .error .parsing := prime_parse_reject_inner_minus (by decide)
+
 example : (0 : Nat) < 7 := by decide
+
+/-! ### C'. the regex-based parsers: totality by typing and the error kinds they can return
+
+  `Bin.parse`, `UPoly.parse`, `Ext.parse`, `BPoly.parse` are total functions into `Except Kind _`
+  (the `partial` engine is only called for its value), so "never panics" holds by typing in the
+  model. Whatever the engine returns, the only error kinds that can come out are the following
+  (the regex results are treated as unknown values in these proofs). For C17. -/
+
+theorem bin_parse_error_kinds {n m : Nat} {v s : String} {k : Kind}
+    (h : Bin.parse n m v s = .error k) :
+    k = .inputValue ∨ k = .parsing ∨ k = .inputTooLarge := bin_parse_error h
+
+theorem upoly_parse_error_kinds {α : Type} {R : UPoly.Ring α} {s : String} {k : Kind}
+    (h : UPoly.parse R s = .error k) : k = .internal ∨ k = .parsing ∨ k = .conversion :=
+  u_parse_error h
+
+theorem ext_parse_error_kinds {p : Nat} {g : List Nat} {s : String} {k : Kind}
+    (h : Ext.parse p g s = .error k) : k = .parsing := ext_parse_error h
+
+theorem bpoly_parse_error_kinds {α : Type} {R : BPoly.Ring α} {s : String} {k : Kind}
+    (h : BPoly.parse R s = .error k) : k = .internal ∨ k = .parsing ∨ k = .conversion :=
+  b_parse_error h
+
+/-! ### D. the binary-field printer
+
+  `Bin.parse` runs the regular-expression engine and cannot be reasoned about; what can be proved
+  is that the printer loses no information: `Bin.toStr` is injective on the elements of the field,
+  for every variable name `SetVarName` accepts. Hence a correct parser *exists* for each such name;
+  that `Bin.parse` is one is `bin_roundtrip_full` below (validated by the correspondence run). -/
+
+/-- the term list of `Bin.toStr` (set bit positions, highest first) determines the value -/
+theorem bin_degs_injective {n a b : Nat} (ha : a < 2 ^ (n + 1)) (hb : b < 2 ^ (n + 1))
+    (h : (List.range (n + 1)).reverse.filter (fun d => a.testBit d) =
+         (List.range (n + 1)).reverse.filter (fun d => b.testBit d)) : a = b :=
+  degs_injective ha hb h
+
+/-- String-level injectivity of `Bin.toStr` on values of at most `n+1` bits (field elements have
+    at most `n`), for every name accepted by `binfield.SetVarName`: non-empty (after trimming),
+    not "0", not "1". No further restriction on the name is needed (it may contain blanks, `+`,
+    `^`, digits). -/
+theorem bin_toStr_injective {varName : String} (hne : varName ≠ "") (h0 : varName ≠ "0")
+    (h1 : varName ≠ "1") {n a b : Nat} (ha : a < 2 ^ (n + 1)) (hb : b < 2 ^ (n + 1))
+    (h : Bin.toStr varName n a = Bin.toStr varName n b) : a = b :=
+  toStr_injective hne h0 h1 ha hb h
+
+/-- the same for the `toStr` field of the field record, on canonical elements `< 2^n` -/
+theorem binOps_toStr_injective {varName : String} (hne : varName ≠ "") (h0 : varName ≠ "0")
+    (h1 : varName ≠ "1") {n m a b : Nat} (ha : a < 2 ^ n) (hb : b < 2 ^ n)
+    (h : (binOps n m varName).toStr a = (binOps n m varName).toStr b) : a = b :=
+  toStr_injective hne h0 h1 (by rw [Nat.pow_succ]; omega) (by rw [Nat.pow_succ]; omega) h
+
+-- non-vacuity / sanity: GF(8), name "a"
+example : ("a" : String) ≠ "" ∧ ("a" : String) ≠ "0" ∧ ("a" : String) ≠ "1" ∧ (5 : Nat) < 2 ^ 3 := by
+  decide
+example : Bin.toStr "a" 3 5 = "a^2 + 1" := by decide
+example : Bin.toStr "a" 3 2 = "a" ∧ Bin.toStr "a" 3 0 = "0" ∧ Bin.toStr "a" 3 1 = "1" := by decide
+/-- the guard on "1" is necessary: with the name "1" the elements `1` and `a` print alike -/
+example : Bin.toStr "1" 3 1 = Bin.toStr "1" 3 2 := by decide
+
+/-- the prime-field printer is injective (all naturals) -/
+theorem prime_toStr_injective {p a b : Nat} (h : (primeOps p).toStr a = (primeOps p).toStr b) :
+    a = b := by
+  have h' : toString a = toString b := h
+  simpa using h'
+
+/-! ### the univariate printer over prime fields
+
+  Again only the printer can be analysed: it is injective on canonical polynomials, so the printed
+  form determines the polynomial. -/
+
+/-- `UPoly.toStr` over a prime field is injective on canonical coefficient slices, for every
+    variable name whose first character is neither a digit nor a blank (in particular every name
+    of the validation run, `AdmissibleName`). No hypothesis on `p` or on the size of the
+    coefficients is needed. -/
+theorem upoly_toStr_injective_prime {p : Nat} {v : String} {x : Char} {vt : List Char}
+    (hv : v.toList = x :: vt) (hx1 : x.isDigit = false) (hx2 : x ≠ ' ')
+    {f g : UPoly Nat} (hf : UPoly.Canon (primeOps p) f) (hg : UPoly.Canon (primeOps p) g)
+    (h : UPoly.toStr (primeOps p) v f = UPoly.toStr (primeOps p) v g) : f = g :=
+  utoStr_injective hv hx1 hx2 hf hg h
+
+/-- extension-field elements print through the same function with the fixed name "a"
+    (`extOps.toStr`): their printer is injective on canonical elements -/
+theorem extOps_toStr_injective {p n : Nat} {g : List Nat} {a b : UPoly Nat}
+    (ha : UPoly.Canon (primeOps p) a) (hb : UPoly.Canon (primeOps p) b)
+    (h : (extOps p n g).toStr a = (extOps p n g).toStr b) : a = b :=
+  upoly_toStr_injective_prime (v := "a") (x := 'a') (vt := []) (by decide) (by decide) (by decide)
+    ha hb h
+
+example : (extOps 3 2 [2, 2, 1]).toStr [1, 2] = "2a + 1" := by decide
+
+-- non-vacuity / sanity: 3X^2 + X + 5 over GF(7)
+example : ("X" : String).toList = 'X' :: [] ∧ ('X' : Char).isDigit = false ∧ 'X' ≠ ' ' := by decide
+example : UPoly.Canon (primeOps 7) [5, 1, 3] := ⟨by simp, fun _ => by decide⟩
+example : UPoly.toStr (primeOps 7) "X" [5, 1, 3] = "3X^2 + X + 5" := by decide
+example : UPoly.toStr (primeOps 7) "X" [0] = "0" ∧ UPoly.toStr (primeOps 7) "X" [1] = "1" ∧
+    UPoly.toStr (primeOps 7) "X" [0, 1] = "X" := by decide
+/-- the restriction on the first character is necessary: with the name "2" the constant `22` and
+    the polynomial `2·X` both print as "22" -/
+example : UPoly.toStr (primeOps 23) "2" [22] = UPoly.toStr (primeOps 23) "2" [0, 2] := by decide
+
+/-! ### the total pieces of the regex-based parsers: exponent and number readers -/
+
+/-- univariate exponents (`strconv.ParseInt`) read back what the printer writes -/
+theorem parseIntDigits_roundtrip {d : Nat} (h : d < 2 ^ 63) :
+    parseIntDigits (toString d) = some d := parseIntDigits_toString h
+
+/-- bivariate exponents and binary-field exponents (`strconv.ParseUint`) -/
+theorem parseUint_roundtrip {d : Nat} (h : d < 2 ^ 64) : parseUint (toString d) = some d :=
+  parseUint_toString h
+
+theorem parseExponent_roundtrip {d : Nat} (h : d < 2 ^ 64) :
+    BPoly.parseExponent (toString d) = some d := parseExponent_toString h
+
+/-- an absent exponent means 1 -/
+theorem parseExponent_absent : BPoly.parseExponent "" = some 1 := parseExponent_empty
+
+/-- `regexp.QuoteMeta` is the identity on names without regular-expression metacharacters, in
+    particular on all names of the validation run -/
+theorem quoteMeta_plain {s : String}
+    (h : ∀ c ∈ s.toList, c ∉ "\\.+*?()|[]{}^$".toList) : Regex.quoteMeta s = s :=
+  quoteMeta_eq_self h
+
+/-- `strings.Trim(coef, "()")` removes exactly the parentheses the polynomial printers put around a
+    multi-term coefficient, provided the coefficient text itself neither starts nor ends with one -/
+theorem trimParens_roundtrip {s : String}
+    (h1 : ∀ c ∈ s.toList.head?, (c == '(' || c == ')') = false)
+    (h2 : ∀ c ∈ s.toList.getLast?, (c == '(' || c == ')') = false) :
+    UPoly.trimParens ("(" ++ s ++ ")") = s := trimParens_wrap h1 h2
+
+/-- … and leaves an unparenthesised coefficient alone -/
+theorem trimParens_plain {s : String}
+    (h1 : ∀ c ∈ s.toList.head?, (c == '(' || c == ')') = false)
+    (h2 : ∀ c ∈ s.toList.getLast?, (c == '(' || c == ')') = false) :
+    UPoly.trimParens s = s := trimParens_eq_self h1 h2
+
+example : UPoly.trimParens "(a^2 + 1)" = "a^2 + 1" := by decide
+
+example : Regex.quoteMeta "X" = "X" := by decide
+example : Regex.quoteMeta "(ω^2)" = "\\(ω\\^2\\)" := by decide
+
+/-! ### E. the full property (STATED, NOT PROVED)
+
+  `Bin.parse`, `UPoly.parse`, `BPoly.parse` (and through `UPoly.parse` the extension-field element
+  parser `Ext.parse`) are executable-only: they call `Regex.compile` / `Regex.findAll`, which are
+  `partial def`s and therefore opaque constants for the kernel.  No theorem about their results is
+  possible in this model.  The statement below is what the round-trip correspondence run
+  (tools/props.py `extra_C15`: print on the implementation, re-parse on implementation and model,
+  compare with `Equal`, also after `decorate` and for ` + `-joined pairs) samples; it is recorded
+  here so that the claim is explicit.  Proved parts: `C15_partial`. -/
+
+/-- variable names of the validation run (`names_ok` in tools/gen.py): an ASCII letter followed by
+    ASCII letters and digits. (The setters accept more: any string that is non-empty after
+    trimming; the property speaks of names "that cannot be confused".) -/
+def AdmissibleName (s : String) : Prop :=
+  ∃ c t, s.toList = c :: t ∧ c.isAlpha = true ∧ ∀ x ∈ t, x.isAlphanum = true
+
+/-- neither name is a prefix of the other, ignoring letter case -/
+def Unconfusable (a b : String) : Prop :=
+  ¬ (UPoly.strLower a).toList <+: (UPoly.strLower b).toList ∧
+  ¬ (UPoly.strLower b).toList <+: (UPoly.strLower a).toList
+
+/-- a coefficient field as returned by a `Define` function: its operations, the predicate
+    "canonical element", and the variable name its own elements print (none for prime fields) -/
+structure FieldSpec (α : Type) where
+  F : FOps α
+  Valid : α → Prop
+  ownVar : Option String
+
+def primeSpec (p : Nat) : FieldSpec Nat := ⟨primeOps p, fun a => a < p, none⟩
+
+def binSpec (n m : Nat) (v : String) : FieldSpec Nat := ⟨binOps n m v, fun a => a < 2 ^ n, some v⟩
+
+def extSpec (p n : Nat) (g : List Nat) : FieldSpec (UPoly Nat) :=
+  ⟨extOps p n g, fun a => UPoly.Canon (primeOps p) a ∧ a.length ≤ n ∧ ∀ c ∈ a, c < p, some "a"⟩
+
+/-- parsing the printed form of an element gives an `Equal` element -/
+def ElemRoundTrip {α : Type} (S : FieldSpec α) : Prop :=
+  ∀ a, S.Valid a → ∃ b, S.F.parse (S.F.toStr a) = .ok b ∧ S.F.beq a b = true
+
+/-- the documented notational freedoms: `^` optional, `*` optional, blanks around `+` free,
+    letter case of the variables free, order of the two variables of a bivariate term free -/
+structure Notation where
+  caret : Bool := true
+  star : Bool := false
+  sep : String := " + "
+  swapCase : Bool := false
+  yFirst : Bool := false
+
+def Notation.ok (N : Notation) : Prop :=
+  ∃ k l, N.sep = String.ofList (List.replicate k ' ' ++ '+' :: List.replicate l ' ')
+
+def swapCase (s : String) : String :=
+  String.ofList (s.toList.map fun c => if c.isUpper then c.toLower else c.toUpper)
+
+/-- `UPoly.toStr` with notational variations; `uToStrN {} = UPoly.toStr` (`uToStrN_default`) -/
+def uToStrN {α : Type} (N : Notation) (F : FOps α) (varName : String) (f : UPoly α) : String :=
+  if UPoly.isZero F f then "0"
+  else
+    let v := if N.swapCase then swapCase varName else varName
+    let terms := (UPoly.degrees F f).map fun d =>
+      let c := UPoly.coef F f d
+      let cs := if !F.isOne c || d == 0 then
+          (if F.nTerms c > 1 then "(" ++ F.toStr c ++ ")" else F.toStr c) else ""
+      cs ++ (if N.star && cs != "" && d != 0 then "*" else "") ++
+        (if d == 1 then v else if d > 1 then v ++ (if N.caret then "^" else "") ++ toString d
+         else "")
+    N.sep.intercalate terms
+
+theorem uToStrN_default {α : Type} (F : FOps α) (v : String) (f : UPoly α) :
+    uToStrN {} F v f = UPoly.toStr F v f := by
+  unfold uToStrN UPoly.toStr
+  simp
+
+/-- `BPoly.toStr` with notational variations; `bToStrN {} = BPoly.toStr` (`bToStrN_default`) -/
+def bToStrN {α : Type} (N : Notation) (R : BPoly.Ring α) (f : BPoly α) : String :=
+  let F := R.F
+  if f.isEmpty then "0"
+  else
+    let x := if N.swapCase then swapCase R.varNames.1 else R.varNames.1
+    let y := if N.swapCase then swapCase R.varNames.2 else R.varNames.2
+    let ex := fun (e : Nat) => if e > 1 then (if N.caret then "^" else "") ++ toString e else ""
+    let terms := (BPoly.sortedDegrees R.ord f).map fun d =>
+      let c := BPoly.coef F f d
+      let cs := if !F.isOne c || (d.1 == 0 && d.2 == 0) then
+          (if F.nTerms c > 1 then "(" ++ F.toStr c ++ ")" else F.toStr c) else ""
+      let xs := (if d.1 ≥ 1 then x else "") ++ ex d.1
+      let ys := (if d.2 ≥ 1 then y else "") ++ ex d.2
+      cs ++ (if N.star && cs != "" && (d.1 != 0 || d.2 != 0) then "*" else "") ++
+        (if N.yFirst then ys ++ xs else xs ++ ys)
+    N.sep.intercalate terms
+
+theorem bToStrN_default {α : Type} (R : BPoly.Ring α) (f : BPoly α) :
+    bToStrN {} R f = BPoly.toStr R f := by
+  unfold bToStrN BPoly.toStr
+  simp [String.append_assoc]
+
+/-- admissible modulus of a univariate quotient ring: monic, canonical, degree ≥ 1 -/
+def ModOK {α : Type} (S : FieldSpec α) (mod : Option (UPoly α)) : Prop :=
+  ∀ g, mod = some g → UPoly.Canon S.F g ∧ (∀ c ∈ g, S.Valid c) ∧ g.length ≥ 2 ∧
+    S.F.isOne (UPoly.lc S.F g) = true
+
+/-- a polynomial of the ring `R`: canonical coefficient slice of canonical elements, reduced -/
+def UValid {α : Type} (S : FieldSpec α) (R : UPoly.Ring α) (f : UPoly α) : Prop :=
+  UPoly.Canon S.F f ∧ (∀ c ∈ f, S.Valid c) ∧ UPoly.reduceIn R f = some f
+
+def UPolyRoundTrip {α : Type} (S : FieldSpec α) : Prop :=
+  ∀ (v : String) (mod : Option (UPoly α)), AdmissibleName v →
+    (∀ w, S.ownVar = some w → Unconfusable v w) → ModOK S mod →
+    let R : UPoly.Ring α := { F := S.F, varName := v, modulus := mod }
+    -- round trip, under every notational variation
+    (∀ f, UValid S R f → ∀ N : Notation, N.ok →
+      ∃ g, UPoly.parse R (uToStrN N S.F v f) = .ok (some g) ∧ UPoly.equal S.F f g = true) ∧
+    -- additivity
+    (∀ f₁ f₂, UValid S R f₁ → UValid S R f₂ →
+      ∃ g, UPoly.parse R (UPoly.toStr S.F v f₁ ++ " + " ++ UPoly.toStr S.F v f₂) = .ok (some g) ∧
+        UPoly.equal S.F g (UPoly.add S.F f₁ f₂) = true)
+
+/-- a polynomial of the bivariate ring `R`: distinct degrees that fit a machine word, nonzero
+    canonical coefficients, reduced -/
+def BValid {α : Type} (S : FieldSpec α) (R : BPoly.Ring α) (f : BPoly α) : Prop :=
+  (f.map (·.1)).Nodup ∧
+  (∀ t ∈ f, S.Valid t.2 ∧ S.F.isZero t.2 = false ∧ t.1.1 < 2 ^ 64 ∧ t.1.2 < 2 ^ 64) ∧
+  BPoly.reduceIn R f = some f
+
+def BPolyRoundTrip {α : Type} (S : FieldSpec α) : Prop :=
+  ∀ (x y : String) (ord : Order) (ideal : Option (List (BPoly α))),
+    AdmissibleName x → AdmissibleName y → Unconfusable x y →
+    (∀ w, S.ownVar = some w → Unconfusable x w ∧ Unconfusable y w) →
+    let R : BPoly.Ring α := { F := S.F, ord := ord, varNames := (x, y), ideal := ideal }
+    (∀ f, BValid S R f → ∀ N : Notation, N.ok →
+      ∃ g, BPoly.parse R (bToStrN N R f) = .ok (some g) ∧ BPoly.equal S.F f g = true) ∧
+    (∀ f₁ f₂, BValid S R f₁ → BValid S R f₂ →
+      ∃ g, BPoly.parse R (BPoly.toStr R f₁ ++ " + " ++ BPoly.toStr R f₂) = .ok (some g) ∧
+        BPoly.equal S.F g (BPoly.add S.F f₁ f₂) = true)
+
+/-- everything C15 says about one coefficient field -/
+def FieldRoundTrip {α : Type} (S : FieldSpec α) : Prop :=
+  ElemRoundTrip S ∧ UPolyRoundTrip S ∧ BPolyRoundTrip S
+
+/-- binary-field element round trip (the part of `C15_full` that `bin_toStr_injective` supports) -/
+def bin_roundtrip_full : Prop :=
+  ∀ (q n m : Nat) (v : String), Define.bin Gen.dbText q = .ok (.bin n m) → AdmissibleName v →
+    ∀ a, a < 2 ^ n → Bin.parse n m v (Bin.toStr v n a) = .ok a
+
+/-- C15 in full, over every field any `Define` function of the model returns.
+    NOT PROVED (regex-engine parsers are executable-only); validated by `extra_C15`. -/
+def C15_full : Prop :=
+  (∀ p, Define.prime p = .ok (.prime p) → FieldRoundTrip (primeSpec p)) ∧
+  (∀ q n m v, Define.bin Gen.dbText q = .ok (.bin n m) → AdmissibleName v →
+    FieldRoundTrip (binSpec n m v)) ∧
+  (∀ q p n g, Define.ext Gen.dbText q = .ok (.ext p n g) → FieldRoundTrip (extSpec p n g))
+
+/-- what `Prime.define` guarantees about an accepted cardinality -/
+theorem define_prime_bound {p : Nat} (h : Define.prime p = .ok (.prime p)) : p - 1 < 2 ^ 32 := by
+  unfold Define.prime Prime.define at h
+  split at h
+  · cases h
+  · split at h
+    · cases h
+    · rename_i h2
+      have : (1 <<< (uintSize / 2) : Nat) = 2 ^ 32 := by decide
+      rw [this] at h2
+      omega
+
+/-- PROVED PART of `C15_full`: the element round trip of every prime field `primefield.Define`
+    returns. Missing relative to `C15_full`: the element round trip of binary and extension fields
+    (for binary fields only printer injectivity `bin_toStr_injective` is proved; for univariate
+    polynomials over prime fields only printer injectivity `upoly_toStr_injective_prime`) and both
+    polynomial round trips, additivity and notation-insensitivity over every field — all of which
+    go through the `partial` regex engine. -/
+theorem C15_partial : ∀ p, Define.prime p = .ok (.prime p) → ElemRoundTrip (primeSpec p) := by
+  intro p h a ha
+  exact prime_roundtrip_beq (define_prime_bound h) ha
+
+/-- (local) decidable equality of results, for the sanity evaluations below -/
+private instance {ε α : Type} [DecidableEq ε] [DecidableEq α] : DecidableEq (Except ε α)
+  | .ok a, .ok b =>
+    if h : a = b then isTrue (by rw [h]) else isFalse (fun h' => by injection h' with h'; exact h h')
+  | .error a, .error b =>
+    if h : a = b then isTrue (by rw [h]) else isFalse (fun h' => by injection h' with h'; exact h h')
+  | .ok _, .error _ => isFalse (fun h => by cases h)
+  | .error _, .ok _ => isFalse (fun h => by cases h)
+
+/-- every name of the validation run satisfies the hypothesis of `upoly_toStr_injective_prime` -/
+theorem upoly_toStr_injective_admissible {p : Nat} {v : String} (hv : AdmissibleName v)
+    {f g : UPoly Nat} (hf : UPoly.Canon (primeOps p) f) (hg : UPoly.Canon (primeOps p) g)
+    (h : UPoly.toStr (primeOps p) v f = UPoly.toStr (primeOps p) v g) : f = g := by
+  obtain ⟨c, t, hl, hc, _⟩ := hv
+  exact upoly_toStr_injective_prime hl (isAlpha_not_digit hc).1 (isAlpha_not_digit hc).2 hf hg h
+
+/-- … and of `bin_toStr_injective` -/
+theorem bin_toStr_injective_admissible {v : String} (hv : AdmissibleName v) {n a b : Nat}
+    (ha : a < 2 ^ (n + 1)) (hb : b < 2 ^ (n + 1)) (h : Bin.toStr v n a = Bin.toStr v n b) :
+    a = b := by
+  obtain ⟨c, t, hl, hc, _⟩ := hv
+  have hne : ∀ w : String, (∀ y ∈ w.toList.head?, y.isAlpha = false) → v ≠ w := by
+    intro w hw e
+    rw [e] at hl
+    have := hw c (by rw [hl]; rfl)
+    rw [hc] at this; cases this
+  exact bin_toStr_injective (hne "" (by simp)) (hne "0" (by decide)) (hne "1" (by decide)) ha hb h
+
+-- non-vacuity: 7 is accepted by `Define.prime` (evaluates the trial-division factoriser)
+example : Define.prime 7 = .ok (.prime 7) := by decide +kernel
+example : Prime.parse 7 (toString 12) = .ok 5 := by rw [prime_parse_nat (by decide)]; rfl
+example : Prime.parse 7 ("-" ++ toString 1) = .ok 6 := by
+  rw [prime_parse_neg (by decide) (by decide)]; decide +kernel
+-- the extreme values of `strconv.ParseInt` / `ParseUint`
+example : Prime.parse 7 ("-" ++ toString (2 ^ 63)) = .ok 6 := by
+  rw [prime_parse_neg (by decide) (by decide)]; decide +kernel
+example : Prime.parse 7 ("-" ++ toString (2 ^ 63 + 1)) = .error .parsing :=
+  prime_parse_neg_overflow (by decide)
+example : Prime.parse 7 (toString (2 ^ 64 - 1)) = .ok 1 := by
+  rw [prime_parse_nat (by decide)]; decide +kernel
+example : Prime.parse 7 (toString (2 ^ 64)) = .error .parsing := prime_parse_nat_overflow (by decide)
+-- Lean's `toNat!` accepts `_` separators, Go's `[0-9]+` does not: rejected by `isDigits`
+example : Prime.parse 7 "1_0" = .error .parsing :=
+  prime_parse_reject_char (c := '_') (by decide) (by decide) (by decide)
+example : Prime.parse 7 "+1" = .error .parsing :=
+  prime_parse_reject_char (c := '+') (by decide) (by decide) (by decide)
+example : Prime.parse 7 " 1" = .error .parsing :=
+  prime_parse_reject_char (c := ' ') (by decide) (by decide) (by decide)
+example : AdmissibleName "t1" := ⟨'t', ['1'], by decide, by decide, by decide⟩
+example : Unconfusable "X" "a" := by unfold Unconfusable; decide
+example : ¬ Unconfusable "A" "a" := by unfold Unconfusable; decide
+example : ({} : Notation).ok := ⟨1, 1, by decide⟩
 
 end Algobra.C15
